@@ -95,7 +95,7 @@ fn run_kp(kp: &std::path::Path, args: &[String], stdin: Option<&str>) -> Run {
     }
 }
 
-const OPERATIONS: [(&str, bool); 10] = [
+const OPERATIONS: [(&str, bool); 12] = [
     ("geo:in | utm zone=32", true),
     ("geo:in | utm zone=32 | neu:out", true),
     ("addone", true),
@@ -106,6 +106,8 @@ const OPERATIONS: [(&str, bool); 10] = [
     ("geo:in | tmerc lon_0=9 k_0=0.9996 x_0=500000", true),
     ("axisswap order=2,1,4,3", true),
     ("curvature mean", false),
+    ("helmert x=0.1 y=0.2 z=0.3 dx=0.01 dy=-0.02 dz=0.03 rx=0.001 drx=0.0001 convention=position_vector t_epoch=2010", true),
+    ("geo:in | lcc lat_1=33 lat_2=45 lat_0=35 lon_0=10 x_0=12345 y_0=67890", true),
 ];
 
 /// The reference reading of an input file: one tuple per line that has at least one token
@@ -270,16 +272,21 @@ pub fn run(h: &H) {
 fn expected(op_text: &str, inverse: bool, roundtrip: bool, input: &[[f64; 4]]) -> Result<Vec<[f64; 4]>, String> {
     let mut ctx = Plain::new();
     let op = ctx.op(op_text).map_err(|e| format!("{e}"))?;
-    let mut data: Vec<Coor4D> = input.iter().map(|c| Coor4D(*c)).collect();
+    // "the library's result for that line's tuple": every tuple on its own, so that nothing a
+    // tuple could inherit from its neighbours in kp's batches is part of the expectation
     let d = if inverse { D::I } else { D::F };
-    apply_set(&ctx, op, d, &mut data);
-    if roundtrip {
-        apply_set(&ctx, op, d.flip(), &mut data);
-        for (x, i) in data.iter_mut().zip(input.iter()) {
-            *x = *x - Coor4D(*i);
+    let mut out = Vec::with_capacity(input.len());
+    let mut one = vec![Coor4D::origin()];
+    for c in input {
+        one[0] = Coor4D(*c);
+        apply_set(&ctx, op, d, &mut one);
+        if roundtrip {
+            apply_set(&ctx, op, d.flip(), &mut one);
+            one[0] = one[0] - Coor4D(*c);
         }
+        out.push(one[0].0);
     }
-    Ok(data.iter().map(|c| c.0).collect())
+    Ok(out)
 }
 
 fn ordinary(h: &H, idx: u64, kp: &std::path::Path, scratch: &std::path::Path, rng: &mut Rng) {
@@ -414,8 +421,10 @@ fn ordinary(h: &H, idx: u64, kp: &std::path::Path, scratch: &std::path::Path, rn
 fn batches(h: &H, idx: u64, kp: &std::path::Path, scratch: &std::path::Path, rng: &mut Rng) {
     let sizes: &[usize] = if h.quick() { &[24_999, 25_000, 25_001] } else { &[24_999, 25_000, 25_001, 50_000, 60_001] };
     let nlines = *rng.pick(sizes);
-    let (mut op_text, _) = OPERATIONS[rng.below(4)];
-    let mut text = gen_input(rng, nlines, Some(3));
+    let (mut op_text, _) = *rng.pick(&[OPERATIONS[0], OPERATIONS[1], OPERATIONS[2], OPERATIONS[3], OPERATIONS[10]]);
+    // the time dependent operation needs the fourth column (epochs 2000..2029 in turn)
+    let ncols = if op_text.starts_with("helmert") { 4 } else { 3 };
+    let mut text = gen_input(rng, nlines, Some(ncols));
     if nlines % 25_000 == 1 && rng.chance(0.4) {
         // the tuple that is alone in the last internal batch fails in the first step of a pipeline
         // whose last step works on the height: its line must read as in one big set
@@ -425,7 +434,7 @@ fn batches(h: &H, idx: u64, kp: &std::path::Path, scratch: &std::path::Path, rng
         text += "0.5 99 100\n";
         h.class("batch-boundary/failing-tuple-alone-in-its-batch");
     }
-    let args: Vec<String> = vec![op_text.to_string(), "-d".into(), "4".into(), "-D".into(), "3".into()];
+    let args: Vec<String> = vec![op_text.to_string(), "-d".into(), "4".into(), "-D".into(), ncols.to_string()];
     let tuples = read_lines(&text, None, None);
     let want = match expected(op_text, false, false, &tuples) {
         Ok(w) => w,
@@ -449,7 +458,7 @@ fn batches(h: &H, idx: u64, kp: &std::path::Path, scratch: &std::path::Path, rng
         );
         return;
     }
-    check_output(h, idx, &format!("batch-{nlines}"), &a, &r.stdout, &want, 4, 3);
+    check_output(h, idx, &format!("batch-{nlines}"), &a, &r.stdout, &want, 4, ncols);
 }
 
 /// Without -D and -d kp estimates the output dimension and the number of decimals from the input.
